@@ -18,6 +18,8 @@ pub enum Mode {
   /// cold, but polls is_subscribed between items like the crate's own producers
   ColdPolite,
   Subject,
+  /// a real ReplaySubject driven step by step (every subscription is handed the history first)
+  ReplaySubject,
 }
 
 #[derive(Clone, Debug)]
@@ -59,6 +61,7 @@ pub fn src_to_json(s: &SrcSpec) -> Json {
         Mode::Cold => "cold",
         Mode::ColdPolite => "cold-polite",
         Mode::Subject => "subject",
+        Mode::ReplaySubject => "replay-subject",
       }),
     ),
     ("scripts", Json::arr(s.scripts.iter(), |x| script_to_json(x))),
@@ -73,6 +76,7 @@ pub fn spec_from_json(w: &Json) -> Option<SeqSpec> {
       "cold" => Mode::Cold,
       "cold-polite" => Mode::ColdPolite,
       "subject" => Mode::Subject,
+      "replay-subject" => Mode::ReplaySubject,
       _ => return None,
     };
     let mut scripts = Vec::new();
@@ -158,6 +162,7 @@ enum Live {
   Hot(HotSource),
   Cold,
   Subject(subjects::Subject<'static, Val>),
+  Replay(subjects::ReplaySubject<'static, Val>),
 }
 
 pub fn run_seq(spec: &SeqSpec, cfg: RunCfg) -> SeqRun {
@@ -216,6 +221,11 @@ pub fn run_seq(spec: &SeqSpec, cfg: RunCfg) -> SeqRun {
           obs.push(sb.observable());
           lives.push(Live::Subject(sb));
         }
+        Mode::ReplaySubject => {
+          let sb = subjects::ReplaySubject::<Val>::new();
+          obs.push(sb.observable());
+          lives.push(Live::Replay(sb));
+        }
       }
     }
     let mut ctx = pipe::Ctx::new(obs);
@@ -266,6 +276,32 @@ pub fn run_seq(spec: &SeqSpec, cfg: RunCfg) -> SeqRun {
           }
         }
         Live::Subject(sb) => {
+          let sc = &sources[i].scripts[0];
+          let st = {
+            let mut p = pos.lock().unwrap();
+            if p[i] < sc.len() {
+              p[i] += 1;
+              Some(sc[p[i] - 1].clone())
+            } else {
+              None
+            }
+          };
+          if let Some(st) = st {
+            let before = sb.verif_observer_count();
+            let seq_start = rt::seq();
+            match &st {
+              Step::N(v) => sb.next(match &tok {
+                Some(t) => Val::Tok(*v, t.clone()),
+                None => Val::Int(*v),
+              }),
+              Step::E(e) => sb.error(mk_err(*e)),
+              Step::C => sb.complete(),
+            }
+            let seq_end = rt::seq();
+            out2.lock().unwrap().subject_emits.push(SubjectEmit { src: i, step: st, seq_start, seq_end, observers_before: before });
+          }
+        }
+        Live::Replay(sb) => {
           let sc = &sources[i].scripts[0];
           let st = {
             let mut p = pos.lock().unwrap();
@@ -372,6 +408,9 @@ pub fn run_seq(spec: &SeqSpec, cfg: RunCfg) -> SeqRun {
       g.steps_done = pos.clone();
       for (i, l) in lives.iter().enumerate() {
         if let Live::Subject(sb) = l {
+          g.subject_counts_end.push((i, sb.verif_observer_count()));
+        }
+        if let Live::Replay(sb) = l {
           g.subject_counts_end.push((i, sb.verif_observer_count()));
         }
       }
@@ -512,7 +551,7 @@ pub fn gen_order(rng: &mut Rng, sources: &[SrcSpec], extra: usize) -> Vec<i64> {
   // a random interleaving of the hot sources' scripts (plus some surplus steps)
   let mut remaining: Vec<usize> = sources
     .iter()
-    .map(|s| if matches!(s.mode, Mode::Hot | Mode::Subject) { s.scripts.iter().map(|x| x.len()).max().unwrap_or(0) + extra } else { 0 })
+    .map(|s| if matches!(s.mode, Mode::Hot | Mode::Subject | Mode::ReplaySubject) { s.scripts.iter().map(|x| x.len()).max().unwrap_or(0) + extra } else { 0 })
     .collect();
   let mut order = Vec::new();
   loop {
